@@ -713,7 +713,7 @@ def perturb(step, state, rng):
 
 
 IMPORT_ENCODER = None     # the Recorder of the run (stream `import`)
-METHOD_MODELLED = {"cut", "forall_elim", "apply_fact", "new_var", "cases", "introduction"}
+METHOD_MODELLED = {"cut", "forall_elim", "apply_fact", "new_var", "cases", "introduction", "revert_intro"}
 SEARCH_HOOK = None        # C14 logs the searches the step generator makes (replay of history-dependent failures)
 CURRENT_RUNNER = None
 
@@ -806,6 +806,12 @@ class Runner:
             try:
                 mrec = (self.recorder.state(target), len(self.recorder.records))
                 self.recorder.intro_capture = [] if step.get("method_name") == "introduction" else None
+                self.recorder.revert_th = None
+                if step.get("method_name") == "revert_intro":
+                    from kernel.thm import Thm
+                    g_ = target.get_proof_item(tuple(int(x) for x in str(step["goal_id"]).split(".")))
+                    f_ = target.get_proof_item(tuple(int(x) for x in step["fact_ids"][0].split(".")))
+                    self.recorder.revert_th = self.recorder.th(Thm.implies_intr(f_.th.prop, g_.th))
             except Exception:  # noqa
                 mrec = None
         if on_copy:
@@ -1404,6 +1410,13 @@ class Recorder:
         forward steps = add_line_before + set_line; cases = apply_tactic with the fixed shape."""
         gid = [int(x) for x in str(step["goal_id"]).split(".")]
         after = self.state(target)
+        if name == "revert_intro":
+            if getattr(self, "revert_th", None) is None:
+                return
+            fact = [int(x) for x in step["fact_ids"][0].split(".")]
+            op = ["revert", before, gid, fact, self.revert_th, self.rcode("assume"), self.rcode("intros")]
+            self.method_records.append(("method:revert_intro", op, ["ok", after]))
+            return
         if name == "introduction":
             cap, self.intro_capture = getattr(self, "intro_capture", None), None
             if not cap:
@@ -1812,7 +1825,8 @@ MANIFEST = {
             "(corpus of past failures first; recorded library steps, search_method suggestions, random perturbation incl. the same method "
             "again in the same scope; directed scenarios; live state or copy): contiguous numbering, citations earlier+visible, last line = "
             "stated goal, full re-check with exactly the open gaps, acceptance with no_gaps when none is left, export->import identity, copy "
-            "isolation (lines, variables, report; identity and content of every argument object). Lean: executable model of the proof tree and "
+            "isolation (lines, variables, report; identity and content of every argument object; no Proof/ProofItem/prevs object shared with a "
+            "copy). Lean: executable model of the proof tree and "
             "of add_line_before / remove_line / set_line / replace_id / find_goal / apply_tactic, of export_proof / parse_proof (structure "
             "only) and of the sharing between a state and its copy; tied to the code by replaying every recorded primitive call, adversarial "
             "primitive calls outside the preconditions, every export/import pair, the ItemID arithmetic and the heap effect of every "
@@ -1825,7 +1839,10 @@ MANIFEST = {
             "positions); copy_isolated (operations that only attach fresh argument objects - all operations as coded - leave every earlier "
             "state unchanged) with in_place_update_not_isolated_counterexample; remove_line_cited_*_counterexample (remove_line does not "
             "check that the line is uncited: its callers replace_id [proved] and revert_intro [asserted in the code, not modelled] do). "
-            "PARTIAL / NOT proved: export_import_id_partial covers proofs without subproofs only (nested: stream `import`); that the new "
+            "export_import_id (importLines (exportLines s) = s for every proof, subproofs at any depth, whose ids equal positions and whose "
+            "subproof lines have non-empty subproofs). PARTIAL / NOT proved: remove_line_callers_establish_precondition_partial covers "
+            "replace_id; revert_intro is modelled (revertIntroM with the guard not is_used, stream method:revert_intro) but that its guard "
+            "implies the precondition of remove_line is not proved; that the new "
             "conclusion line states a sequent proving the goal's is the hypothesis pt.th.can_prove(goal) asserted by fix C13-9, not a "
             "theorem; printed arguments/sequents are opaque (C07); copy isolation is proved for the aliasing model, the claim that the "
             "code only allocates is the `alias` stream.",
